@@ -28,14 +28,14 @@ func init() {
 		Rule: "boot order: all 65536 boot numbers, each alone, and all lists of length 0..4 over {0000,0001,001A,00FF,ABCD,FFFF} in every order; the store holds BootOrder and one load option per number under the firmware's name Boot+4 upper-case hex digits; " +
 			"oracle: GetBootOrder returns exactly those names in order and GetBootEntry(name) yields the description stored for that number. " +
 			"load options: attributes x descriptions x every ordered node sequence of length 0..3 over {PCI, ACPI, HD-MBR, HD-GPT, File, FvFile, USB} x per-kind field values, built by an independent encoder; oracle: every field recovered, " +
-			"File/HD nodes parse as the UEFI text form with equal field values. non-trivial = all oracle clauses evaluated; distinct = distinct encoded input",
+			"File/HD nodes parse as the UEFI text form with equal field values; every BMP character and non-BMP characters across the planes as file path and description; every ordered pair of 15 options decoded into one reused EFILoadOption value (second decode exact, the node slice kept from the first unchanged). non-trivial = all oracle clauses evaluated; distinct = distinct encoded input",
 		Assumptions: []string{"independent encoder dpgen from UEFI 2.8 sections 3.1.3/10.3", "HD text form per UEFI 10.6.1.6 compared by value (padding and hex case not judged)"},
 		Units: func(tier string) []string {
 			u := []string{"bootnum#0", "bootnum#1", "bootnum#2", "bootnum#3", "bootnum#4", "bootnum#5", "bootnum#6", "bootnum#7", "bootlists"}
 			for i := 0; i < 7; i++ {
 				u = append(u, "loadopt#"+strconv.Itoa(i))
 			}
-			return append(u, "hdtext")
+			return append(u, "hdtext", "pathchars", "reuse")
 		},
 		Run:    c18Run,
 		Budget: dur(3*time.Minute, 15*time.Minute),
@@ -307,6 +307,73 @@ func c18CheckHDText(want dpgen.Node, text string) string {
 	return ""
 }
 
+// c18Compare compares a decoded option with the fields it was built from.
+func c18Compare(e *device.EFILoadOption, lo dpgen.LoadOption) string {
+	if uint32(e.Attributes) != lo.Attributes {
+		return "attributes differ"
+	}
+	if int(e.FilePathListLength) != len(lo.PathList()) {
+		return "path-list length differs"
+	}
+	if e.Description != lo.Description {
+		return "description differs"
+	}
+	if len(e.FilePath) != len(lo.Nodes) {
+		return "node count differs"
+	}
+	for i, n := range lo.Nodes {
+		if w := c18CheckNode(n, e.FilePath[i]); w != "" {
+			return w
+		}
+	}
+	return ""
+}
+
+// c18Reuse decodes a, then b, into the same EFILoadOption value (what a loop over Boot#### does)
+// and checks that the value then describes b and that what the caller kept from a still describes a.
+func c18Reuse(c *hx.Ctx, a, b dpgen.LoadOption) {
+	if !c.Next() {
+		return
+	}
+	var e device.EFILoadOption
+	var why string
+	var err error
+	p := hx.Try(func() {
+		if err = e.Unmarshal(bytes.NewBuffer(a.Bytes())); err != nil {
+			return
+		}
+		kept := e // shallow copy: shares whatever the decoder shares
+		keptNodes := e.FilePath
+		if err = e.Unmarshal(bytes.NewBuffer(b.Bytes())); err != nil {
+			return
+		}
+		if w := c18Compare(&e, b); w != "" {
+			why = "decoding into a value that already holds an option: " + w
+			return
+		}
+		kept.FilePath = keptNodes
+		if w := c18Compare(&kept, a); w != "" {
+			why = "a previously decoded option changes when the same variable is decoded into again: " + w
+		}
+	})
+	detail := map[string]any{"first": hx8(a.Bytes()), "second": hx8(b.Bytes())}
+	switch {
+	case p != nil:
+		c.Outcome("panic")
+		c.Violation("C18 load option: decoding ends in "+p.String(), detail)
+	case err != nil:
+		c.Outcome("decode-error")
+		detail["error"] = err.Error()
+		c.Violation("C18 load option: well-formed option rejected", detail)
+	case why != "":
+		c.Outcome("violation")
+		c.Violation("C18 load option: "+why, detail)
+	default:
+		c.Outcome("reuse-ok")
+		c.Nontrivial(a.Bytes(), b.Bytes())
+	}
+}
+
 func c18LoadOption(c *hx.Ctx, lo dpgen.LoadOption) {
 	if !c.Next() {
 		return
@@ -327,28 +394,7 @@ func c18LoadOption(c *hx.Ctx, lo dpgen.LoadOption) {
 		if err != nil {
 			return
 		}
-		if uint32(e.Attributes) != lo.Attributes {
-			why = "attributes differ"
-			return
-		}
-		if int(e.FilePathListLength) != len(lo.PathList()) {
-			why = "path-list length differs"
-			return
-		}
-		if e.Description != lo.Description {
-			why = "description differs"
-			return
-		}
-		if len(e.FilePath) != len(lo.Nodes) {
-			why = fmt.Sprintf("node count differs")
-			return
-		}
-		for i, n := range lo.Nodes {
-			if w := c18CheckNode(n, e.FilePath[i]); w != "" {
-				why = w
-				return
-			}
-		}
+		why = c18Compare(&e, lo)
 	})
 	detail := map[string]any{"input": hx8(in), "nodes": fmt.Sprintf("%+v", lo.Nodes), "description": lo.Description}
 	switch {
@@ -450,6 +496,35 @@ func c18Run(c *hx.Ctx, tier, unit string) {
 				}
 			}
 			rec(0, nil)
+		}
+	case unit == "pathchars":
+		// every UTF-16 code unit value that is a character, and non-BMP characters across the planes,
+		// as part of a file path and as the description
+		one := func(r rune) {
+			c18LoadOption(c, dpgen.LoadOption{Attributes: 1, Description: string(r), Nodes: []dpgen.Node{{Kind: "File", Path: "\\" + string(r) + "x"}}})
+		}
+		for r := rune(1); r <= 0xFFFF; r++ {
+			if r >= 0xD800 && r <= 0xDFFF {
+				continue
+			}
+			one(r)
+		}
+		for r := rune(0x10000); r <= 0x10FFFF; r += 0x3F1 {
+			one(r)
+		}
+		one(0x10FFFF)
+	case unit == "reuse":
+		var opts []dpgen.LoadOption
+		for _, kd := range c18Kinds {
+			vs := c18NodeVariants(kd, false)
+			opts = append(opts, dpgen.LoadOption{Attributes: 1, Description: "one " + kd, Nodes: []dpgen.Node{vs[0]}})
+			opts = append(opts, dpgen.LoadOption{Attributes: 0x101, Description: kd, Nodes: []dpgen.Node{c18NodeVariants("PCI", false)[1], vs[len(vs)-1], c18NodeVariants("File", false)[0]}})
+		}
+		opts = append(opts, dpgen.LoadOption{Attributes: 0, Description: ""})
+		for _, a := range opts {
+			for _, b := range opts {
+				c18Reuse(c, a, b)
+			}
 		}
 	case unit == "hdtext":
 		// every partition format / signature type combination the text form defines, plus partition number 0
